@@ -615,7 +615,8 @@ impl WModel {
     }
 
     /// effect of one request of the alphabet (requests that are invalid for the region change nothing)
-    fn command(&mut self, region: &str, b: &[u8]) {
+    /// `mask`: the channel mask in force when the request arrived (snapshot)
+    fn command(&mut self, region: &str, b: &[u8], mask: &[u8]) {
         let (lo, hi) = rr::band(region);
         let inband = |f: u32| f >= lo && f <= hi;
         let f24 = |x: &[u8]| (x[0] as u32 | (x[1] as u32) << 8 | (x[2] as u32) << 16) * 100;
@@ -637,7 +638,13 @@ impl WModel {
                 let (idx, f) = (b[1] as usize, f24(&b[2..5]));
                 if idx < 16 && inband(f) {
                     if let ChanM::Known(_, dl) = &mut self.chans[idx] {
-                        *dl = vec![f];
+                        if mask.get(idx / 8).map(|m| m & (1 << (idx % 8)) != 0).unwrap_or(false) {
+                            *dl = vec![f];
+                        } else if !dl.contains(&f) {
+                            // a defined channel that the mask has switched off: the specification lets the request
+                            // through, the stack refuses it (and says so in its answer) - either is admitted
+                            dl.push(f);
+                        }
                     }
                 }
             }
@@ -1003,6 +1010,7 @@ impl System for WSys {
         let down = |b: &Vec<u8>| Frame::Down { fcnt: Fcnt::Rel(1), confirmed: false, ack: false, fopts: b.clone(), port: None, payload: vec![], tamper: Tamper::None };
         let ja = |dl: u8, rd: u8, n: u32| Frame::JoinAccept { join_nonce: 0x20 + n, net_id: 0x13, devaddr: DEVADDR, dl_settings: dl, rx_delay: rd, cflist: None, tamper: Tamper::None, trunc: 0 };
         let model_before = self.model.clone();
+        let model_mask: Vec<u8> = self.snap().region.channel_mask.to_vec();
         let o = match ev {
             WEv::Up { draw } => self.transact(false, *draw, None, None, None, None),
             WEv::Cmd { bytes, window, .. } => {
@@ -1046,7 +1054,7 @@ impl System for WSys {
         // the transaction's downlink takes effect for the NEXT uplink
         let after = self.snap();
         match ev {
-            WEv::Cmd { bytes, .. } => self.model.command(&region, bytes),
+            WEv::Cmd { bytes, .. } => self.model.command(&region, bytes, &model_mask),
             WEv::JoinOk { dl_settings, rx_delay, .. } => {
                 if matches!(after.state, VerifMacState::Joined(_)) {
                     self.model.joined(&region, *dl_settings, *rx_delay);
